@@ -725,6 +725,9 @@ pub struct MiniCff {
     pub top_extra: Vec<u8>,                // extra Top DICT bytes, placed first
     pub glyphs: usize,
     pub strings: Vec<Vec<u8>>,             // String INDEX (SIDs 391 ..)
+    pub hdr_pad: Vec<u8>,                  // bytes between the four header fields and the Name INDEX (hdrSize = 4 + len)
+    pub hdr_minor: u8,
+    pub hdr_off_size: u8,                  // 0: the usual 1
 }
 
 pub fn mini_cff(o: &MiniCff) -> Vec<u8> {
@@ -765,13 +768,14 @@ pub fn mini_cff(o: &MiniCff) -> Vec<u8> {
     };
     let top_osz = if mk_top(0, 0, 0, 0).len() + 1 > 255 { 2 } else { 1 };
     let top0 = mk_index(&[mk_top(0, 0, 0, 0)], top_osz, false);
-    let cs_off = 4 + name.len() + top0.len() + strings.len() + gsubr.len();
+    let cs_off = 4 + o.hdr_pad.len() + name.len() + top0.len() + strings.len() + gsubr.len();
     let charset_off = cs_off + cs.len();
     let enc_off = charset_off + o.custom_charset.as_ref().map(|c| c.len()).unwrap_or(0);
     let priv_off = enc_off + o.custom_encoding.as_ref().map(|c| c.len()).unwrap_or(0);
     let top = mk_index(&[mk_top(cs_off as i32, charset_off as i32, enc_off as i32, priv_off as i32)], top_osz, false);
     assert_eq!(top.len(), top0.len());
-    let mut d = vec![1, 0, 4, 1];
+    let mut d = vec![1, o.hdr_minor, 4 + o.hdr_pad.len() as u8, o.hdr_off_size.max(1)];
+    d.extend_from_slice(&o.hdr_pad);
     d.extend(name);
     d.extend(top);
     d.extend(strings);
@@ -782,6 +786,84 @@ pub fn mini_cff(o: &MiniCff) -> Vec<u8> {
     d.extend(private);
     d.extend(subrs);
     d
+}
+
+/// The same table with a longer header: `pad` is inserted behind the four header fields (hdrSize grows by its length)
+/// and every absolute offset - Top DICT: charset (> 2), Encoding (> 1), CharStrings, Private, FDArray, FDSelect; Font
+/// DICTs: Private - grows with it.  Works in place, hence only on tables whose offset operands all have the
+/// five-byte form and whose header has four bytes (None otherwise).  Independent of allsorts (own DICT walker).
+pub fn cff_longer_header(src: &[u8], pad: &[u8]) -> Option<Vec<u8>> {
+    let k = pad.len() as i64;
+    if src.len() < 4 || src[2] != 4 || 4 + pad.len() > 255 {
+        return None;
+    }
+    let mut d = src.to_vec();
+    // patch the offset operands of one DICT (bytes a .. b of d); returns the FDArray offset found (before patching)
+    fn patch(d: &mut [u8], a: usize, b: usize, k: i64, top: bool) -> Option<Option<usize>> {
+        let mut at = a;
+        let mut operands: Vec<(usize, usize)> = Vec::new(); // (position, size)
+        let mut fdarray = None;
+        while at < b {
+            let b0 = d[at];
+            let n = match b0 {
+                12 => 2,
+                0..=11 | 13..=24 => 1,
+                28 => 3,
+                29 => 5,
+                30 => {
+                    let mut e = at + 1;
+                    while e < b && (d[e] & 0x0f) != 0x0f && (d[e] >> 4) != 0x0f { e += 1; }
+                    e + 1 - at
+                }
+                32..=246 => 1,
+                247..=254 => 2,
+                _ => return None,
+            };
+            if at + n > b { return None; }
+            if b0 <= 24 {
+                let op: u16 = if b0 == 12 { 0x0c00 | d[at + 1] as u16 } else { b0 as u16 };
+                // which operands are absolute offsets
+                let which: &[usize] = match op {
+                    15 | 16 | 17 if top => &[0],
+                    0x0c24 | 0x0c25 if top => &[0],
+                    18 => &[1],
+                    _ => &[],
+                };
+                for w in which {
+                    let (p, sz) = *operands.get(*w)?;
+                    // predefined charset / encoding ids are not offsets (allsorts writes `0 Encoding` as a one-byte integer)
+                    if sz == 1 && ((op == 15 && (139..=141).contains(&d[p])) || (op == 16 && (139..=140).contains(&d[p]))) { continue; }
+                    if sz != 5 { return None; }
+                    let v = i32::from_be_bytes([d[p + 1], d[p + 2], d[p + 3], d[p + 4]]) as i64;
+                    if (op == 15 && v <= 2) || (op == 16 && v <= 1) { continue; }
+                    if op == 0x0c24 { fdarray = Some(v as usize); }
+                    d[p + 1..p + 5].copy_from_slice(&((v + k) as i32).to_be_bytes());
+                }
+                operands.clear();
+            } else {
+                operands.push((at, n));
+            }
+            at += n;
+        }
+        Some(fdarray)
+    }
+    let (_, _, _, name_end) = walk_index(&d, 4)?;
+    let (count, sz, offs, _) = walk_index(&d, name_end)?;
+    if count != 1 { return None; }
+    let data0 = name_end + 3 + 2 * sz as usize;
+    let fdarray = patch(&mut d, data0 + offs[0] as usize - 1, data0 + offs[1] as usize - 1, k, true)?;
+    if let Some(fa) = fdarray {
+        let (n, fsz, foffs, _) = walk_index(&d, fa)?;
+        let fdata = fa + 3 + (n + 1) * fsz as usize;
+        for i in 0..n {
+            patch(&mut d, fdata + foffs[i] as usize - 1, fdata + foffs[i + 1] as usize - 1, k, false)?;
+        }
+    }
+    d[2] = 4 + pad.len() as u8;
+    let mut out = d[..4].to_vec();
+    out.extend_from_slice(pad);
+    out.extend_from_slice(&d[4..]);
+    Some(out)
 }
 
 /// Independent reading of an INDEX header: (count, offSize, offsets, end of the INDEX).
@@ -989,7 +1071,8 @@ pub fn cff_facts(c: &CFF<'_>) -> Result<Value, String> {
             (privs, fdops, sel)
         }
     };
-    Ok(json!({"names": facts_of(c.name_index.iter()), "strs": facts_of(c.string_index.iter()), "gs": facts_of(c.global_subr_index.iter()),
+    Ok(json!({"hdr": [c.header.major, c.header.minor, c.header.off_size],
+              "names": facts_of(c.name_index.iter()), "strs": facts_of(c.string_index.iter()), "gs": facts_of(c.global_subr_index.iter()),
               "cs": facts_of(f.char_strings_index.iter()), "sids": sids, "topops": ops_of(&f.top_dict), "sidstr": sidstr,
               "privs": privs, "fdops": fdops, "fdsel": fdsel}))
 }
@@ -997,17 +1080,29 @@ pub fn cff_facts(c: &CFF<'_>) -> Result<Value, String> {
 fn run_cfft(case: &Value) -> Value {
     let src = gb(case, "src");
     let none = json!([]);
-    let fail = |res: String| json!({"res": res, "back1": none, "bytes": [], "back": none, "again": "n/a"});
+    // hs1 / hs: the header size allsorts reports on the first / the second reading; reread: outcome of the second reading
+    // (when it fails the bytes still go to the judge, which decodes them with the specification)
+    let fail = |res: String| json!({"res": res, "back1": none, "hs1": -1, "bytes": [], "reread": "n/a", "back": none, "hs": -1, "again": "n/a"});
     let out = guarded(|| -> Result<Value, String> {
         let c = ReadScope::new(&src).read::<CFF<'_>>().map_err(|e| format!("src {:?}", e))?;
         let back1 = cff_facts(&c)?;
+        let hs1 = c.header.hdr_size;
         match write_vec(|b| CFF::write(b, &c)) {
-            Err(e) => Ok(json!({"res": "Err", "err": werr(&e), "back1": back1, "bytes": [], "back": none, "again": "n/a"})),
+            Err(e) => Ok(json!({"res": "Err", "err": werr(&e), "back1": back1, "hs1": hs1, "bytes": [], "reread": "n/a", "back": none, "hs": -1, "again": "n/a"})),
             Ok(bytes) => {
-                let t = ReadScope::new(&bytes).read::<CFF<'_>>().map_err(|e| format!("reread {:?}", e))?;
-                let back = cff_facts(&t)?;
-                let again = again_of(&bytes, write_vec(|b| CFF::write(b, &t)));
-                Ok(json!({"res": "Ok", "back1": back1, "bytes": jb(&bytes), "back": back, "again": again}))
+                let second = guarded(|| -> Result<(Value, u8, String), String> {
+                    let t = ReadScope::new(&bytes).read::<CFF<'_>>().map_err(|e| format!("Err:{:?}", e))?;
+                    let back = cff_facts(&t).map_err(|e| format!("Err:{}", e))?;
+                    Ok((back, t.header.hdr_size, again_of(&bytes, write_vec(|b| CFF::write(b, &t)))))
+                });
+                Ok(match second {
+                    Outcome::Returned(Ok((back, hs, again))) =>
+                        json!({"res": "Ok", "back1": back1, "hs1": hs1, "bytes": jb(&bytes), "reread": "Ok", "back": back, "hs": hs, "again": again}),
+                    Outcome::Returned(Err(e)) =>
+                        json!({"res": "Ok", "back1": back1, "hs1": hs1, "bytes": jb(&bytes), "reread": e, "back": none, "hs": -1, "again": "n/a"}),
+                    Outcome::Panicked(m) =>
+                        json!({"res": "Ok", "back1": back1, "hs1": hs1, "bytes": jb(&bytes), "reread": format!("Panic:{}", panic_key(&m)), "back": none, "hs": -1, "again": "n/a"}),
+                })
             }
         }
     });
